@@ -614,6 +614,7 @@ def run(tier, replay=None):
                  sign_vars={'col1IsNeg': (1, '-'), 'col2IsNeg': (2, '-')}, pairing_only=True)
     check_paired_direction(chk, F)
     check_position_row_map(chk, F)
+    check_sorted_by_position(chk, F)
     check_dictionary_cover(chk, F)
     check_reduction_order(chk, F)
     chk.assumptions += ['clang 14 parser; template patterns (all if-constexpr arms, contradictory arms pruned)',
@@ -670,6 +671,34 @@ def check_position_row_map(chk, F):
                    k, 'the entry of the removed position stays, the next cell inserted there reads the row of the '
                    'removed cell' if k == 0 else 'erased twice'),
                key='E2|RU_matrix::remove_last|position-row-map|%s' % ('barcode' if pairings else 'no-barcode'))
+
+
+def check_sorted_by_position(chk, F):
+    """E11-sort-by-position: in a chain matrix a column index is a storage slot (a column keeps it when it moves with its
+    cell): where a function compiled with vine updates sorts a container of column indices, it does so with a comparator
+    that goes through the positions (`pivotToPosition`, `get_pivot`); a plain std::sort orders the slots, not the cells."""
+    n = 0
+    for f in F.functions:
+        if f.get('clsname') not in ('Chain_matrix', 'Chain_vine_swap') or f.get('inst') not in (0, 2) or \
+                f.get('body') is None:
+            continue
+        for x in ir.walk(f['body']):
+            if not (ir.is_call(x) and ir.call_name(x) == 'sort'):
+                continue
+            args = ir.call_args(x)
+            cont = ir.show(args[0]).split('.')[0] if args else ''
+            decl = [y for y in ir.walk(f['body']) if y.get('k') == 'VarDecl' and y.get('n') == cont]
+            if not decl or 'Index' not in (decl[0].get('t') or '') or 'ID_index' in (decl[0].get('t') or ''):
+                continue
+            n += 1
+            cmp_text = ' '.join(ir.show(y) for y in ir.walk(args[2])) if len(args) == 3 else ''
+            ok = len(args) == 3 and any(w in cmp_text for w in ('pivotToPosition', 'get_pivot', 'position'))
+            chk.ob('E11-sort-by-position', '%s::%s sorts the column indices `%s` through their positions' % (
+                f['clsname'], f['name'], cont), '%s:%s' % (rel(f['file']), x.get('l')), ok,
+                '' if ok else '`%s` orders storage slots: after a transposition in which the columns moved with their '
+                'cells the slots are not in the order of the filtration' % ir.show(x)[:60],
+                key='E11|%s::%s|sort-by-position' % (f['clsname'], f['name']))
+    chk.expect_count('E11-sort-by-position', 'sorts of column indices in the chain matrix', n, 1)
 
 
 def check_paired_direction(chk, F):
